@@ -364,7 +364,13 @@ pub fn run(tier: &str) -> i32 {
     }
     // "validation only gates" over a large program corpus (every declaration atom of C01, role programs, the
     // several-of-everything shader): text with validation {all, empty caps where naga accepts} must equal text without
-    let corpus = crate::c18::corpus();
+    let mut corpus = crate::c18::corpus();
+    // every access form (incl. variables that are only named: `_ = res;`, `let p = &res;`) at every placement and
+    // through every call form: an analysis that the validator could answer differently from the generator's own walk
+    let (placed, _) = crate::c03::space_b(thorough);
+    for p in placed.into_iter().chain(crate::c03::space_c(false)).chain(crate::c03::space_a_k(false, 2)) {
+        corpus.push((format!("c03|{}", p.key), p.src, Config { encase: true, ..Config::default() }));
+    }
     let cres = par_map(&corpus, |(key, src, cfg)| {
         let off = generate(src, cfg);
         let mut diffs = vec![];
